@@ -237,10 +237,18 @@ func checkC08(c C08Case) Verdict {
 		dataSets = append(dataSets, toDataMap(perturbed[i]))
 	}
 	ij := toDataMap(c.Prog.IJ)
+	// the injected data of an earlier request, which the application keeps: a renderer that is given it
+	// and then the data of this request ("Inject sets the given data map") renders with the latter only
+	earlier := data.Map{"zzEarlier": data.String("earlier request")}
+	for k2 := range ij {
+		if len(k2)%2 == 0 {
+			earlier[k2] = data.String("earlier:" + k2)
+		}
+	}
 	msgs := identityBundle(cb)
 
 	digests := func() [4]uint64 {
-		return [4]uint64{deepDigest(cb.reg), deepDigest(dataSets), deepDigest(ij), deepDigest(msgs)}
+		return [4]uint64{deepDigest(cb.reg), deepDigest(dataSets), deepDigest([]data.Map{ij, earlier}), deepDigest(msgs)}
 	}
 	hasPlural, hasMarks := false, strings.ContainsAny(strings.Join(srcs, ""), "«»")
 	for _, t := range cb.reg.Templates {
@@ -366,6 +374,9 @@ func checkC08(c C08Case) Verdict {
 						rd = rd.WithMessages(msgs)
 					}
 					if c.Prog.HasIJ {
+						if op.Data%2 == 1 {
+							rd = rd.Inject(earlier)
+						}
 						rd = rd.Inject(ij)
 					}
 					if op.Op == "renderMsgs" && op.Tmpl%2 == 1 {
